@@ -9,7 +9,7 @@ for f in sys.argv[1:]:
     for l in open(f):
         m = re.match(r'([A-Za-z0-9_\-]+): (\w+) (\S+) expected\[(.*?)\] caught\[(.*?)\]', l)
         if not m: continue
-        name = m.group(1) + ('2' if r2 and re.match(r'C\d\d-[ABC]$', m.group(1)) else '')
+        name = m.group(1) + ('2' if r2 and re.match(r'C\d\d-[ABC]$', m.group(1)) else '')  # files named *_r2_* come from /tmp/seeded2
         rows[name] = dict(status=m.group(2), suite=m.group(3), expected=m.group(4).split(), caught=m.group(5).split())
 def desc(path):
     for l in open(path):
